@@ -1,5 +1,6 @@
 import TddaVerif.Drv.Util
 import TddaVerif.Model.CheckPandas
+import TddaVerif.Model.Round
 open Lean TddaVerif.Drv TddaVerif.Py TddaVerif.CheckPandas
 
 namespace TddaVerif.Drv.C05
@@ -49,6 +50,20 @@ def handle (op : String) (j : Json) : Option (R Json) :=
       let diff ← asList asChars (← fld j "diffcols")
       pure (Json.bool (checkDataframe act ref nact nref cd ct ce (if coSkip then none else some co) lv
         (fun cols => cols.all (fun c => !diff.contains c))))
+  | "c05.round" => some do
+      -- x = num / den (exact value of a float), p decimals -> [numerator, denominator] of the rounded value
+      let num ← asInt (← fld j "num")
+      let den ← asNat (← fld j "den")
+      let p ← asNat (← fld j "p")
+      let r := TddaVerif.Round.roundTo p (mkRat num den)
+      pure (Json.arr #[Json.num (Lean.JsonNumber.fromInt r.num), ofNat r.den])
+  | "c05.cells_equal" => some do
+      let cell (k : String) : R (Option Rat) := do
+        let v := fldD j k Json.null
+        if v.isNull then pure none else do
+          let a ← asArr v
+          pure (some (mkRat (← asInt a[0]!) (← asNat a[1]!)))
+      pure (Json.bool (TddaVerif.Round.cellsEqual (← asNat (← fld j "p")) (← cell "x") (← cell "y")))
   | _ => none
 
 end TddaVerif.Drv.C05
